@@ -515,6 +515,7 @@ class SX:
         self.fn_transform = None           # callable(FunctionDef) -> FunctionDef: semantic-preserving normalisation before evaluation
         self._fn_cache = {}
         self.div_sites = []                # (BinOp node, denominator term, guards) of every division (track_div_zero)
+        self.dispatch_quantity_ops = False # when True: `q * x`, `q + r` ... between quantities are evaluated as calls of their operator methods
         self.identity_compares = []        # (line, text) of `is` / `is not` between two numbers or quantities
         self.arith_log = set()             # (left kind, op, right kind) of every quantity operation interpreted natively
         self.cmp_sides = None              # when a list: (node, op, left term, right term) of every numeric comparison evaluated
@@ -755,7 +756,22 @@ class SX:
         is_gen = any(isinstance(x, (ast.Yield, ast.YieldFrom)) for x in walk_no_nested(fn))
         if is_gen:
             st.env['<yields>'] = Tv([])
-        outs = self.block(strip_docstring(fn.body), [st], frame)
+        try:
+            outs = self.block(strip_docstring(fn.body), [st], frame)
+        except CannotDecide:
+            # a small pure numeric helper the evaluator cannot follow (a counting while, string formatting ...): its result is an
+            # unknown number that depends on its arguments - whatever formula uses it no longer matches a specified term
+            pure = depth > 0 and not is_gen and (cls is None or self._is_static(fn)) \
+                and parse_annotation(fn.returns, self.model) == 'num' \
+                and not any(isinstance(x, ast.Attribute) and isinstance(x.ctx, ast.Store) for x in ast.walk(fn)) \
+                and not any(isinstance(x, (ast.Global, ast.Nonlocal)) for x in ast.walk(fn)) \
+                and all(isinstance(v, (N, Dyn)) for k, v in env.items())
+            if not pure:
+                raise
+            terms = [env[k].term for k in sorted(env)]
+            s1 = st.copy()
+            s1.env = caller_env
+            return [Outcome(s1, 'return', N(Rat.atom(self.ctx.fatom(f'call:{fn.name}', terms))), fn.lineno)]
         res = []
         for o in outs:
             s = o.state.copy()
@@ -1365,6 +1381,25 @@ class SX:
                     res.append(r)
                     continue
                 s, (l, rr) = r
+                if self.dispatch_quantity_ops and (isinstance(l, Q) or isinstance(rr, Q)):
+                    # inside the units package an arithmetic expression on quantities is a call of their own operator methods
+                    # (forward first, reflected for a number on the left): evaluated as such, with its guards and raises
+                    opname = {ast.Add: 'add', ast.Sub: 'sub', ast.Mult: 'mul', ast.Div: 'truediv'}.get(type(n.op))
+                    meth = None
+                    if opname and isinstance(l, Q):
+                        meth, recv, oth = self.model.find_member(l.kind, f'__{opname}__'), l, rr
+                    if opname and meth is None and isinstance(rr, Q):
+                        meth, recv, oth = self.model.find_member(rr.kind, f'__r{opname}__'), rr, l
+                    if meth is not None and frame['depth'] < MAX_DEPTH - 1:
+                        pn = [a.arg for a in meth.node.args.args]
+                        saved, self.dispatch_quantity_ops = self.dispatch_quantity_ops, False     # the operator's own body is read natively
+                        try:
+                            outs = self.run(meth.node, meth.module, meth.cls, recv, {pn[1] if len(pn) > 1 else 'other': oth}, s, frame['depth'] + 1)
+                        finally:
+                            self.dispatch_quantity_ops = saved
+                        for o in outs:
+                            res.append((o.state, o.value) if o.kind == 'return' else ((o.state, NoneV()) if o.kind == 'fall' else o))
+                        continue
                 out = self.binop(n.op, l, rr, s, n)
                 if self.inline_ctor_guards and isinstance(out, Q) and out.kind in SIGN and not isinstance(n.op, ast.Div):
                     # the result of arithmetic on a sign-constrained kind is built by that kind's constructor (C19):
@@ -2790,6 +2825,17 @@ class SX:
                 return [(st, N(args[0].term, 'int'))]
             # truncation of a real value is not the identity: keep it as an opaque function
             return [(st, N(Rat.atom(self.ctx.fatom('call:int', (args[0].term,))), 'int'))]
+        if name == 'round' and args and isinstance(args[0], Q):
+            # round(quantity[, n]) is quantity.__round__(n): evaluated when the class defines it, TypeError otherwise
+            rm_ = m.find_member(args[0].kind, '__round__')
+            if rm_ is None:
+                return [Outcome(st, 'raise', 'TypeError', getattr(n, 'lineno', 0))]
+            params = [a.arg for a in rm_.node.args.args[1:]]
+            bound = dict(zip(params, args[1:]))
+            outs = self.run(rm_.node, rm_.module, rm_.cls, args[0], bound, st, frame['depth'] + 1)
+            return [(o.state, o.value) if o.kind == 'return' else ((o.state, NoneV()) if o.kind == 'fall' else o) for o in outs]
+        if name == 'round' and len(args) == 2 and all(isinstance(a, (N, Dyn)) for a in args):
+            return [(st, N(Rat.atom(self.ctx.fatom('call:round_to', (args[0].term, args[1].term))), 'float'))]
         if name in ('round', 'rint', 'around') and len(args) == 1 and isinstance(args[0], (N, Dyn)):
             return [(st, N(Rat.atom(self.ctx.fatom('call:round', (args[0].term,))), 'int'))]
         if name in ('floor', 'ceil', 'trunc') and len(args) == 1 and isinstance(args[0], (N, Dyn)):
